@@ -461,6 +461,25 @@ func checkC12(r *Result) {
 				r.check(len(bad) == 0, "VOTE-GUARDS", "(x/dispute/keeper.msgServer).Vote # SetTeamVote only for an admissible vote", P.Pos(cs.Pos()), fmt.Sprintf("valuations: %v", statesStr(ps, cs.Instr)))
 			}
 		}
+		// every success return has written the voter record and updated the four group counters: a vote that
+		// changes the counters without leaving the record can be cast again
+		{
+			isCounter := func(c *CallSite) bool {
+				return c.Callee == "(x/dispute/keeper.Keeper).SetVoterTips" || c.Callee == "(x/dispute/keeper.Keeper).SetVoterReporterStake" || c.Callee == "(x/dispute/keeper.Keeper).SetTokenholderVote" || c.Callee == "(x/dispute/keeper.Keeper).SetTeamVote"
+			}
+			ps2 := AnalyzePaths(vh, []Atom{
+				{Name: "recorded", Event: P.CallEvent(descIs("coll:x/dispute/keeper.Keeper.Voter.Set"), T)},
+				{Name: "counted", Event: P.CallEvent(isCounter, T)},
+			})
+			okAll, n := true, 0
+			for _, ret := range SuccessReturns(vh) {
+				n++
+				if bad := ps2.Require(ret, func(v map[string]bool) bool { return v["recorded"] || !v["counted"] }); len(bad) > 0 {
+					okAll = false
+				}
+			}
+			r.check(okAll && n > 0, "VOTE-GUARDS", "(x/dispute/keeper.msgServer).Vote # every success return that touched the counters has written the voter record", P.Pos(vh.Pos()), fmt.Sprintf("%d success returns", n))
+		}
 		// same voter and same dispute id in the test and in the record (vote.Id is the id the vote was fetched under)
 		norm := func(s string) string {
 			return strings.ReplaceAll(s, "field:x/dispute/types.Vote.Id(ext:0(call:(cosmossdk.io/collections.Map).Get(field:x/dispute/keeper.Keeper.Votes(field:x/dispute/keeper.msgServer.Keeper(param:0:x/dispute/keeper.msgServer)),", "ID(")
